@@ -12,6 +12,11 @@
                       units are refused with ValueError;
      C20_mono         the monospaced font (number 9) has one advance for every dumped glyph and no
                       kerning, hence width = count x advance.
+     C20_api_nonneg / C20_api_empty / C20_api_append   the same three facts for the whole function
+                      get_string_width (font resolution, scaling, unit conversion), for every font
+                      reference, size >= 0, dpi > 0 and unit on which it answers at all;
+     C20_model_linear the model's pixel width at k times the size is exactly k times the width (the
+                      model's own scaling law; the implementation is compared with it to within 1 %).
    C20_partial: "scales with the font size to within one percent" concerns FreeType's hinting and 26.6
    rounding at sizes other than the reference; the model is linear by construction, and the relation is
    a sampled check against the implementation (harness/props/c20.py), not a theorem.  At the reference
@@ -52,3 +57,29 @@ Theorem C20_mono : mono_ok = true /\
   forall adv a0 s, (forall c, In c s -> advance adv c = a0) -> width64 adv [] s = Z.of_nat (length s) * a0.
 Proof. exact (conj mono_ok_true width_uniform). Qed.
 Print Assumptions C20_mono.
+
+Theorem C20_api_nonneg : forall s f size unit dpi w,
+  (0 <= size)%Q -> (0 < dpi)%Q -> get_string_width s f size unit dpi = Ok w -> (0 <= w)%Q.
+Proof. exact get_string_width_nonneg. Qed.
+Print Assumptions C20_api_nonneg.
+
+Theorem C20_api_empty : forall f size unit dpi w,
+  get_string_width [] f size unit dpi = Ok w -> (w == 0)%Q.
+Proof. exact get_string_width_empty. Qed.
+Print Assumptions C20_api_empty.
+
+Theorem C20_api_append : forall s c f size unit dpi w1 w2,
+  (0 <= size)%Q -> (0 < dpi)%Q ->
+  get_string_width s f size unit dpi = Ok w1 -> get_string_width (s ++ [c]) f size unit dpi = Ok w2 -> (w1 <= w2)%Q.
+Proof. exact get_string_width_append_mono. Qed.
+Print Assumptions C20_api_append.
+
+Theorem C20_model_linear : forall font size k s q1 q2,
+  width_px font size s = Ok q1 -> width_px font (k * size) s = Ok q2 -> (q2 == k * q1)%Q.
+Proof. exact width_px_linear. Qed.
+Print Assumptions C20_model_linear.
+
+(* non-vacuity: the function answers on a concrete call *)
+Example C20_api_answers :
+  exists w, get_string_width (s2l "Table 1") (FNum 1) (9 # 1) (s2l "in") (72 # 1) = Ok w /\ (0 < w)%Q.
+Proof. eexists; split; [vm_compute; reflexivity|reflexivity]. Qed.
